@@ -145,7 +145,7 @@ int main(void) {
             zckCtx *s = open_read(sfd), *t = open_read(tfd);
             printf("C open=%d%d", s != NULL, t != NULL);
             if(s && t) { set_fault(c); zh_armed = 1; int k = zck_copy_chunks(s, t); zh_armed = 0; printf(" k=%d", k); print_flags(t);
-                         printf(" ok=%d", verify_valid(t, tfd)); }
+                         printf(" ok=%d", verify_valid(t, tfd)); print_file("tgt", tfd); }
             printf(" calls=%ld/%ld/%ld fired=%d\n", zh_count[0], zh_count[1], zh_count[2], zh_fired);
             if(s) zck_free(&s); if(t) zck_free(&t); close(sfd); close(tfd);
         } else if(sscanf(line, "D %s %s %s %s", a, b, c, d) == 4) {
